@@ -2,6 +2,7 @@ package hcv
 
 import (
 	"fmt"
+	"strings"
 
 	"golang.org/x/tools/go/ssa"
 )
@@ -139,6 +140,24 @@ func DebugRespStores(p *Prog, a *Anchors) {
 				if fa, ok := st.Addr.(*ssa.FieldAddr); ok && isHTTPResponsePtr(fa.X.Type()) {
 					fmt.Println(p.ShortName(fn), p.InstrPos(in), fieldName(fa.X.Type(), fa.Field), "base:", fmt.Sprintf("%T", fa.X))
 				}
+			}
+		})
+	}
+}
+
+// DebugDyn prints, for every dynamic call in functions whose name contains pat, the refined callees.
+func DebugDyn(p *Prog, pat string) {
+	for _, fn := range p.RepoFuncs {
+		if !strings.Contains(FuncName(fn), pat) {
+			continue
+		}
+		instrsOf(fn, func(in ssa.Instruction) {
+			if ci, ok := in.(ssa.CallInstruction); ok && isDynamicFuncCall(ci.Common()) {
+				var names []string
+				for _, c := range p.Callees(ci) {
+					names = append(names, p.ShortName(c))
+				}
+				fmt.Println(p.ShortName(fn), p.InstrPos(in), in.String(), "->", names)
 			}
 		})
 	}
